@@ -1,0 +1,55 @@
+//go:build verif
+
+package parquet
+
+import (
+	"bytes"
+
+	"github.com/parsyl/parquet/internal/bitpack"
+	"github.com/parsyl/parquet/internal/rle"
+)
+
+// This file is only compiled with -tags verif. It gives the verification
+// harness under /verif (a separate module, which cannot import internal/...)
+// thin access to the level codec and to the package's buffer pool.
+// It adds no behaviour to the library.
+
+// VerifBitPack calls internal/bitpack.Pack for one group of 8 values.
+func VerifBitPack(width int, vals []uint8) []byte {
+	return bitpack.Pack(make([]byte, 0, bitpack.MaxSize), width, vals)
+}
+
+// VerifBitUnpack calls internal/bitpack.Unpack for one width-byte group.
+func VerifBitUnpack(width int, b []byte) []uint8 {
+	return bitpack.Unpack(width, b)
+}
+
+// VerifRLEEncode encodes levels exactly as writeLevels does.
+func VerifRLEEncode(width int32, levels []uint8) ([]byte, error) {
+	enc, err := rle.New(width, len(levels))
+	if err != nil {
+		return nil, err
+	}
+	for _, l := range levels {
+		enc.Write(l)
+	}
+	return enc.Bytes(), nil
+}
+
+// VerifRLEDecode decodes a length-prefixed level stream exactly as readLevels does.
+func VerifRLEDecode(width int32, b []byte) ([]uint8, int, error) {
+	dec, err := rle.New(width, 0)
+	if err != nil {
+		return nil, 0, err
+	}
+	return dec.Read(bytes.NewBuffer(b))
+}
+
+// VerifPoolPollute returns n dirty buffers holding junk to the package's buffer pool.
+func VerifPoolPollute(junk []byte, n int) {
+	for i := 0; i < n; i++ {
+		b := buffpool.Get()
+		b.B = append(b.B[:0], junk...)
+		defer buffpool.Put(b)
+	}
+}
